@@ -295,12 +295,165 @@ fn format_rows(rep: &mut Report) {
     disp!("{:<6}");
 }
 
+/// records every call made to the hasher, with its bytes: "hashing gives the same answer as the value" for every
+/// hasher means the handle feeds the hasher exactly what the value feeds it
+#[derive(Default)]
+struct RecHasher(Vec<(u8, Vec<u8>)>);
+impl Hasher for RecHasher {
+    fn finish(&self) -> u64 {
+        0
+    }
+    fn write(&mut self, b: &[u8]) {
+        self.0.push((0, b.to_vec()));
+    }
+    fn write_u8(&mut self, i: u8) {
+        self.0.push((1, vec![i]));
+    }
+    fn write_u16(&mut self, i: u16) {
+        self.0.push((2, i.to_ne_bytes().to_vec()));
+    }
+    fn write_u32(&mut self, i: u32) {
+        self.0.push((4, i.to_ne_bytes().to_vec()));
+    }
+    fn write_u64(&mut self, i: u64) {
+        self.0.push((8, i.to_ne_bytes().to_vec()));
+    }
+    fn write_usize(&mut self, i: usize) {
+        self.0.push((9, i.to_ne_bytes().to_vec()));
+    }
+}
+fn calls<T: Hash + ?Sized>(t: &T) -> Vec<(u8, Vec<u8>)> {
+    let mut h = RecHasher::default();
+    t.hash(&mut h);
+    h.0
+}
+
+/// trait-object and unsized payloads whose equality relates values of different sizes
+trait Shape {
+    fn area(&self) -> u32;
+}
+struct Square(u32);
+struct Rect(u32, u32, [u8; 24]);
+impl Shape for Square {
+    fn area(&self) -> u32 {
+        self.0 * self.0
+    }
+}
+impl Shape for Rect {
+    fn area(&self) -> u32 {
+        self.0 * self.1
+    }
+}
+impl PartialEq for dyn Shape {
+    fn eq(&self, o: &dyn Shape) -> bool {
+        self.area() == o.area()
+    }
+}
+impl PartialOrd for dyn Shape {
+    fn partial_cmp(&self, o: &dyn Shape) -> Option<Ordering> {
+        self.area().partial_cmp(&o.area())
+    }
+}
+impl Hash for dyn Shape {
+    fn hash<H: Hasher>(&self, h: &mut H) {
+        self.area().hash(h)
+    }
+}
+/// decimal digits compared by numeric value: "007" == "7"
+#[repr(transparent)]
+struct Num([u8]);
+impl Num {
+    fn val(&self) -> u64 {
+        self.0.iter().fold(0, |a, d| a * 10 + (*d - b'0') as u64)
+    }
+    fn arc(s: &str) -> Arc<Num> {
+        let a: Arc<[u8]> = Arc::from(s.as_bytes());
+        unsafe { Arc::from_raw(Arc::into_raw(a) as *const Num) }
+    }
+}
+impl PartialEq for Num {
+    fn eq(&self, o: &Num) -> bool {
+        self.val() == o.val()
+    }
+}
+impl PartialOrd for Num {
+    fn partial_cmp(&self, o: &Num) -> Option<Ordering> {
+        self.val().partial_cmp(&o.val())
+    }
+}
+
+fn unsized_rows(rep: &mut Report) {
+    use unsize::{CoerceUnsize, Coercion};
+    let shapes: Vec<Arc<dyn Shape>> = vec![
+        Arc::new(Square(4)).unsize(Coercion!(to dyn Shape)),
+        Arc::new(Rect(2, 8, [0; 24])).unsize(Coercion!(to dyn Shape)),
+        Arc::new(Rect(1, 16, [0; 24])).unsize(Coercion!(to dyn Shape)),
+        Arc::new(Square(3)).unsize(Coercion!(to dyn Shape)),
+        Arc::new(Rect(3, 3, [0; 24])).unsize(Coercion!(to dyn Shape)),
+    ];
+    for x in &shapes {
+        for y in &shapes {
+            rep.evals += 1;
+            let (veq, vne, vcmp, vrel) = ops(&**x, &**y);
+            let (aeq, ane, acmp, arel) = ops(x, y);
+            if aeq != veq || ane != vne || acmp != vcmp || arel != vrel {
+                rep.bad("Arc<dyn Trait> ==/!=/partial_cmp/<..: differs from the values (payloads of different concrete size)",
+                        format!("areas {} and {}: Arc gives ({},{},{}), values give ({},{},{})", x.area(), y.area(), aeq, ane, acmp, veq, vne, vcmp));
+            }
+            if (calls(x) == calls(y)) != (calls(&**x) == calls(&**y)) {
+                rep.bad("Arc<dyn Trait> Hash: differs from the values", format!("areas {} and {}", x.area(), y.area()));
+            }
+        }
+    }
+    let nums: Vec<Arc<Num>> = ["7", "007", "70", "0070", "8"].iter().map(|s| Num::arc(s)).collect();
+    for x in &nums {
+        for y in &nums {
+            rep.evals += 1;
+            let (veq, vne, vcmp, vrel) = ops(&**x, &**y);
+            let (aeq, ane, acmp, arel) = ops(x, y);
+            if aeq != veq || ane != vne || acmp != vcmp || arel != vrel {
+                rep.bad("Arc<unsized newtype> ==/!=/partial_cmp/<..: differs from the values (payloads of different length)",
+                        format!("{} and {}: Arc gives ({},{},{}), values give ({},{},{})", x.val(), y.val(), aeq, ane, acmp, veq, vne, vcmp));
+            }
+        }
+    }
+}
+
 /// hashing and map-key use (total carrier only)
 fn hash_rows(rep: &mut Report) {
     fn hv<T: Hash + ?Sized>(t: &T) -> u64 {
         let mut s = DefaultHasher::new();
         t.hash(&mut s);
         s.finish()
+    }
+    // the exact calls a handle makes on the hasher are the value's
+    {
+        macro_rules! same_calls {
+            ($what:expr, $h:expr) => {{
+                rep.evals += 1;
+                let h = $h;
+                if calls(&h) != calls(&*h) {
+                    rep.bad(concat!("Hash: the handle does not feed the hasher what the value feeds it: ", $what), String::new());
+                }
+            }};
+        }
+        same_calls!("Arc<(u8, u32)>", Arc::new((1u8, 2u32)));
+        same_calls!("Arc<[u32]>", Arc::<[u32]>::from(vec![1u32, 38, 7]));
+        same_calls!("Arc<str>", Arc::<str>::from("abc"));
+        same_calls!("Arc<HeaderSlice<HeaderWithLength<u16>, [u32]>>", Arc::from_header_and_slice(HeaderWithLength::new(7u16, 3), &[1u32, 38, 7]));
+        same_calls!("Arc<HeaderSlice<u8, [u64]>>", Arc::from_header_and_slice(7u8, &[1u64, 2]));
+        for n in 0..4usize {
+            rep.evals += 1;
+            let items: Vec<u32> = (0..n as u32).map(|i| i * 37 + 1).collect();
+            let t: ThinArc<u16, u32> = ThinArc::from_header_and_slice(7, &items);
+            if calls(&t) != calls(&*t) {
+                rep.bad("Hash: the handle does not feed the hasher what the value feeds it: ThinArc<u16, u32>", format!("{} item(s)", n));
+            }
+            let f = Arc::from_thin(t.clone());
+            if calls(&t) != calls(&f) {
+                rep.bad("Hash: a ThinArc and the fat Arc of the same value feed the hasher differently", format!("{} item(s)", n));
+            }
+        }
     }
     let mut hm: HashMap<Arc<(u8, u8)>, usize> = HashMap::new();
     let mut bm: BTreeMap<Arc<(u8, u8)>, usize> = BTreeMap::new();
@@ -467,6 +620,7 @@ pub fn run(total_rows: &str, partial_rows: &str, refl_rows: &str, out_path: &str
     sized_rows::<f32>(&mut rep);
     sized_rows::<Refl>(&mut rep);
     hash_rows(&mut rep);
+    unsized_rows(&mut rep);
     format_rows(&mut rep);
     if samples.is_empty() {
         samples.push(json!("(no row sampled)"));
